@@ -87,6 +87,28 @@ def numpy_to_blackbird(A, var_name):
     return script
 
 
+def _format_value(v):
+    """Format a scalar or list value using Blackbird syntax.
+
+    Args:
+        v: a Python or NumPy scalar, a string, or a list of these
+
+    Returns:
+        str: the value as it is written in a Blackbird script
+    """
+    if isinstance(v, (list, tuple)):
+        return "[{}]".format(", ".join(_format_value(i) for i in v))
+
+    if isinstance(v, str):
+        return '"{}"'.format(v)
+
+    if isinstance(v, complex):
+        return "{}{}{}j".format(v.real, "+-"[int(v.imag < 0)], np.abs(v.imag))
+
+    # booleans, ints, floats
+    return "{}".format(v)
+
+
 class BlackbirdProgram:
     """Python representation of a Blackbird program."""
 
@@ -333,7 +355,9 @@ class BlackbirdProgram:
                     # the expected syntax
                     option_strings = []
                     for k, v in data["options"].items():
-                        if not isinstance(v, str):
+                        if isinstance(v, (list, tuple)):
+                            option_strings.append("{}={}".format(k, _format_value(v)))
+                        elif not isinstance(v, str):
                             option_strings.append("{}={}".format(k, v))
                         else:
                             option_strings.append('{}="{}"'.format(k, v))
@@ -370,7 +394,7 @@ class BlackbirdProgram:
             if len(op["modes"]) == 1:
                 modes = op["modes"][0]
             else:
-                modes = op["modes"]
+                modes = "[{}]".format(", ".join("{}".format(m) for m in op["modes"]))
 
             # check if the operation has any arguments
             if "args" in op:
@@ -448,6 +472,9 @@ class BlackbirdProgram:
                         kwargs.append(
                             "{}={}{}{}j".format(k, v.real, "+-"[int(v.imag < 0)], np.abs(v.imag))
                         )
+
+                    elif isinstance(v, (list, tuple)):
+                        kwargs.append("{}={}".format(k, _format_value(v)))
 
                     else:
                         kwargs.append("{}={}".format(k, v))
